@@ -169,6 +169,29 @@ def build_fs(args):
         rec(lambda: DecayMode.from_pdgids(0.5, ids).daughters)
         rec(lambda: DecayMode.from_pdgids(0.5, tuple(ids)).daughters)
         rec(lambda: DaughtersDict(dict(m)) + DaughtersDict())
+        # part of the final state given positionally, the rest by keyword; completed in place after construction
+        k = rng.randint(0, len(fl))
+        head, tail = fl[:k], fl[k:]
+        tm = {}
+        for x in tail:
+            tm[x] = tm.get(x, 0) + 1
+        rec(lambda: DaughtersDict(" ".join(head), **tm))
+        rec(lambda: DaughtersDict(list(head), **tm))
+        rec(lambda: DaughtersDict(**dict(m)))
+
+        def inplace(how):
+            dd = DaughtersDict(list(head))
+            if how == "item":
+                for x in tail:
+                    dd[x] += 1
+            elif how == "iadd":
+                dd += DaughtersDict(list(tail))
+            else:
+                dd.update(list(tail))
+            return dd
+        rec(lambda: inplace("item"))
+        rec(lambda: inplace("iadd"))
+        rec(lambda: inplace("update"))
     return {"prop": "C11F", "cid": cid, "fs": bag, "rank": cz.rank, "obs": {"forms": forms, "lists": lists, "lens": lens},
             "names": cz.names}
 
